@@ -99,6 +99,14 @@ def _validate_valid_identifiers(nodes: dict[str, HyperNode]) -> None:
                 f"How to fix:\n"
                 f"  Use a different name (e.g., '{node.name}_node' or '{node.name}_func')"
             )
+        repeated = sorted({o for o in node.outputs if list(node.outputs).count(o) > 1})
+        if repeated:
+            raise GraphConfigError(
+                f"Duplicate output name(s) {repeated} on node '{node.name}'\n\n"
+                f"  -> A node produces each of its output names once\n\n"
+                f"How to fix:\n"
+                f"  Give every output of '{node.name}' its own name"
+            )
         for output in node.outputs:
             if not output.isidentifier():
                 raise GraphConfigError(
